@@ -14,9 +14,11 @@ import sys
 
 prop, variant, needs, caught = sys.argv[1:5]
 tests = sys.argv[sys.argv.index("--tests") + 1] if "--tests" in sys.argv else ""
-src = f"/tmp/mut/out/{prop}/{variant}"
-work = f"/var/tmp/seed-{prop}-{variant}"
-dst = f"/verif/seeded/{prop}-{variant}"
+root = os.environ.get("MUTROOT", "/tmp/mut")
+tag = os.environ.get("MUTTAG", "")
+src = f"{root}/out/{prop}/{variant}"
+work = f"/var/tmp/seed{tag}-{prop}-{variant}"
+dst = f"/verif/seeded/{prop}-{variant}{tag}"
 os.makedirs(dst, exist_ok=True)
 shutil.copy(f"{src}/patch.diff", f"{dst}/patch.diff")
 demo = [f for f in os.listdir(src) if f.startswith("demo_")][0]
